@@ -11,6 +11,7 @@ VERUS_UNITS = {
     'link_cw': 'pure lemma unit over the real char-wise State/NfaBuilder types: cw_encodes (postcondition of charwise build_double_array) + nfa_tree + nfa_links (fail strictly shallower, or dead under leftmost) + the array-shape facts build_cw proves  ==>  cw_wf (precondition of every char-wise transition function and iterator); the ranking witness is the NFA depth carried through idmap',
     'nfa_add': 'nfa_builder.rs NfaBuilder::{add, skip_shadowed, child_id}, NfaBuilderState::default, MatchKind::is_leftmost_first, EdgeLabel trait contract: Err(InvalidArgument) iff empty/too long, Err(DuplicatePattern) only for a pattern seen before, Ok only for a new pattern and then seen\' = seen + {pattern}; trie invariant; recorded length == byte length; shadowed patterns are recorded but add no state',
     'ser': 'serializer.rs trait contracts, Option<NonZeroU32>, Vec<S>; U24nU8, State, Output<V>, MatchKind (+From<u8>/u8::from); bytewise serialize/deserialize_unchecked; C09 client',
+    'ser_cw': 'serializer.rs trait contracts, Option<NonZeroU32>, Vec<S>, MatchKind, Output<V> (shared parts, re-verified) + charwise State (16 bytes), CodeMapper (SerializableVec), charwise serialize/deserialize_unchecked; executable C09 client for the char-wise automaton',
     'search_cw': 'charwise.rs child_index_unchecked / next_state_id_unchecked / next_state_id_leftmost_unchecked, CodeMapper::get, State accessors',
     'utf8': 'charwise/iter.rs CharWithEndOffsetIterator::next against the UTF-8 table: offsets, scalar values, unwrap_unchecked/from_u32_unchecked preconditions',
     'iter_cw': 'charwise/iter.rs next() of FindIterator, FindOverlappingIterator, FindOverlappingNoSuffixIterator against spec streams over the char-wise double array; laziness',
@@ -65,8 +66,8 @@ PROPS = {
                 chain='every get_unchecked / unwrap_unchecked / from_u32_unchecked in search code and iterators is an index or value obligation under bw_wf / cw_wf (P); the build functions establish da_safe and encodes (P: build_bw, build_cw) and encodes => wf (P: link_bw, link_cw); NFA-stage contract (B)',
                 assumed=[NFA_ASSUMED, DA_ASSUMED]),
     'C08': dict(verus=['search_cw', 'utf8', 'iter_cw', 'build_cw', 'link_cw', 'lm_cw'], kani=['num_bytes_labels', 'utf8_decoder_two_chars'], bounded=True, chain='char-wise iterators refine streams over their array with decoder end offsets (P: iter_cw, utf8; offsets fall on character boundaries; unmapped characters go to the root: search_cw); label byte lengths and decoder (K); char-wise leftmost iterator (str-based): end offsets are char boundaries, refinement of its spec stream (P: lm_cw); equality of the byte-wise and char-wise streams rests on AC correctness (B)', assumed=[AC_ASSUMED]),
-    'C09': dict(verus=['ser'], kani=KANI_SER + ['intpack_u24nu8'], bounded=True,
-                chain='byte-wise: deserialize_unchecked(serialize(a) ++ t) == (a, t) and re-serialisation reproduces the bytes (P: ser, for every V satisfying the trait contract) <- primitive LE impls (K, 13 harnesses); char-wise automaton and CodeMapper: B',
+    'C09': dict(verus=['ser', 'ser_cw'], kani=KANI_SER + ['intpack_u24nu8'], bounded=True,
+                chain='byte-wise: deserialize_unchecked(serialize(a) ++ t) == (a, t) and re-serialisation reproduces the bytes (P: ser, for every V satisfying the trait contract) <- primitive LE impls (K, 13 harnesses); char-wise automaton incl. CodeMapper and the 16-byte State: the same statement (P: ser_cw)',
                 assumed=['user-defined V: satisfies the Serializable trait contract (ser/deser inverse, fixed width < 256 MiB)', 'derived PartialEq is structural']),
     'C10': dict(verus=['nfa_add', 'helper', 'build_bw', 'wrap_bw', 'build_cw'], kani=['num_bytes_labels'], bounded=True,
                 chain='accept/reject: NfaBuilder::add rejects exactly the empty pattern and every pattern seen before, for every match kind incl. leftmost-first shadowing (P: nfa_add, for both label types); the wrappers that call add in a loop and the index conversion: B. never panics: every assert!/debug_assert!/unwrap/index/arithmetic in build_helper.rs and in the byte-wise double-array construction (bytewise/builder.rs) is a discharged obligation for every num_free_blocks >= 1 and every tree-shaped NFA (P: helper, build_bw); both variants (P: helper, build_bw, build_cw); accept/reject (add), NFA passes, CodeMapper::new and the build wrappers: B',
